@@ -125,10 +125,20 @@ def _clone(v, memo):
     return v
 
 
+_FA_DEPTH = [0]
+
+
 def FA(lo, hi, body, name='j'):
-    """forall j in [lo, hi): body(j)"""
-    j = fresh(name)
-    b = body(j)
+    """forall j in [lo, hi): body(j).  The bound variable is named by nesting depth, so that the same clause built twice over
+    unchanged values is the *same* term (an obligation that literally repeats a hypothesis is then discharged at once,
+    independently of quantifier instantiation heuristics)."""
+    d = _FA_DEPTH[0]
+    j = z3.Int('fa!%d' % d)
+    _FA_DEPTH[0] = d + 1
+    try:
+        b = body(j)
+    finally:
+        _FA_DEPTH[0] = d
     if isinstance(b, bool):
         b = z3.BoolVal(b)
     return z3.ForAll([j], z3.Implies(z3.And(zi(lo) <= j, j < zi(hi)), b))
@@ -492,9 +502,13 @@ class Executor:
             self._havoc_callee_effects(calls_, state, done)
         finally:
             self.ctx.muted = False
-        for nm in names:
-            if nm in state.env:
-                state.env[nm] = self.havoc_value(state.env[nm], state, nm)
+        self._rebound = names
+        try:
+            for nm in names:
+                if nm in state.env:
+                    state.env[nm] = self.havoc_value(state.env[nm], state, nm)
+        finally:
+            self._rebound = ()
 
     def _havoc_callee_effects(self, calls_, state, done):
         """lists mutated by contract callees inside the loop body (declared by Contract.mutated)"""
@@ -591,7 +605,14 @@ class Executor:
             n = SList(v.ref, v.length, v.fn, None if v.items is None else list(v.items), v.kind)
             self.havoc_list(n, state, grows=True)
             return n
-        return v      # STT objects keep identity; their lists are havoced through the object scan
+        if isinstance(v, STT) and nm in getattr(self, '_rebound', ()):
+            # the variable is *rebound* in the loop body (x = f(x)): at the head of an arbitrary iteration it refers to an unknown
+            # tensor train - only the loop invariant says anything about it
+            from vt.e1.contract import mk_fresh_tt
+            t = mk_fresh_tt(state, nm)
+            state.assume(z3.And(t.ref >= 0, t.row_dims.ref >= 0, t.col_dims.ref >= 0, t.ranks.ref >= 0, t.cores.ref >= 0))
+            return t
+        return v      # STT objects mutated in place keep identity; their lists are havoced through the object scan
 
     # ------------------------------------------------------------------------------------------------------------------
     # assignment
